@@ -187,6 +187,7 @@ def o_c04(ctx, desc, obs, model, kw):
         sdead = supply_dead(desc, ph)
         odead = structural_dead(desc, ph)
         rows = {r["name"]: r for r in p["rows"]}
+        feed = feeders(desc, rows)
         hit = False
         for r in p["rows"]:
             c = comps[r["name"]]
@@ -200,12 +201,17 @@ def o_c04(ctx, desc, obs, model, kw):
                 hit = True
                 if r["vout"] != 0.0:
                     ctx.oracle(desc, "dead_element_outputs_zero", k, {}, {"phase": ph, "row": r["name"], "vout": r["vout"]})
-                if k in SLEEPERS and inactive_in(c, ph) and r["vin"] != 0.0:
-                    iis = abs(c["args"].get("iis", 0.0))
-                    want = iis * abs(r["vin"])
-                    if r["iin"] != iis or not solved.close(r["pwr"], want) or not solved.close(r["loss"], want):
-                        ctx.oracle(desc, "sleep_current", k, {}, {"phase": ph, "row": r["name"], "iis": iis, "Iin": r["iin"],
-                                   "Power": r["pwr"], "Loss": r["loss"], "Vin": r["vin"]})
+                if k in SLEEPERS and inactive_in(c, ph):
+                    # the live supply, taken from the supplying row itself (mux: first live declared input)
+                    f = feed.get(r["name"])
+                    vs = rows[f]["vout"] if f is not None else 0.0
+                    if vs != 0.0:
+                        iis = abs(c["args"].get("iis", 0.0))
+                        want = iis * abs(vs)
+                        if r["iin"] != iis or not solved.close(r["pwr"], want) or not solved.close(r["loss"], want) \
+                                or not solved.close(r["vin"], vs):
+                            ctx.oracle(desc, "sleep_current", k, {}, {"phase": ph, "row": r["name"], "iis": iis, "Iin": r["iin"],
+                                       "Power": r["pwr"], "Loss": r["loss"], "Vin": r["vin"], "supply": f, "supply_vout": vs})
                 if k == "source" and (r["iin"] != 0.0 or r["pwr"] != 0.0 or r["loss"] != 0.0):
                     ctx.oracle(desc, "dead_source_zero", k, {}, {"phase": ph, "row": r["name"], "Iin": r["iin"], "Power": r["pwr"]})
         if hit:
